@@ -7,6 +7,7 @@ import (
 	"testing"
 
 	"github.com/dolthub/go-mysql-server/vh/internal/fx"
+	"github.com/dolthub/go-mysql-server/vh/internal/kf"
 	"github.com/dolthub/go-mysql-server/vh/internal/stats"
 	"pgregory.net/rapid"
 )
@@ -63,6 +64,18 @@ func TestC26SQL(t *testing.T) {
 		}
 		if stored < 2 {
 			return
+		}
+		if tc.family == "json" && kf.Listed(kfJSONBigFloat) {
+			var texts []string
+			for _, l := range lits {
+				if l != "NULL" {
+					texts = append(texts, sqlUnquote(l))
+				}
+			}
+			if jsonBigFloatRegion(texts) {
+				st.Excluded(kfJSONBigFloat)
+				return
+			}
 		}
 		desc := func() string {
 			return fmt.Sprintf("CREATE TABLE t (id INT PRIMARY KEY, c %s); inserted (id, c): %s", tc.ddl, strings.Join(func() []string {
@@ -214,4 +227,10 @@ func TestC26SQL(t *testing.T) {
 			}
 		}
 	})
+}
+
+// sqlUnquote undoes sqlString for the JSON literals of this package.
+func sqlUnquote(l string) string {
+	l = strings.TrimSuffix(strings.TrimPrefix(l, "'"), "'")
+	return strings.NewReplacer("\\\\", "\\", "''", "'", "\\0", "\x00", "\\t", "\t").Replace(l)
 }
